@@ -3,6 +3,7 @@ import Bmc.Proofs.GenOrch.TranslatedOk
 import Bmc.Proofs.GenOrch.WalkSDRs
 import Bmc.Proofs.GenOrch.RetrieveSDRRepository
 import Bmc.Proofs.EndToEnd.WalkC14
+import Bmc.Proofs.EndToEnd.AgainC14
 #print axioms Bmc.Proofs.C14.walk_complete
 #print axioms Bmc.Proofs.C14.retrieve_complete
 #print axioms Bmc.Proofs.C14.result_exact
@@ -18,3 +19,4 @@ import Bmc.Proofs.EndToEnd.WalkC14
 #print axioms Bmc.Proofs.GenOrch.RetrieveSDRRepository_gen_eq
 #print axioms Bmc.Proofs.EndToEnd.generated_walkSDRs_complete
 #print axioms Bmc.Proofs.EndToEnd.generated_RetrieveSDRRepository_snapshot
+#print axioms Bmc.Proofs.EndToEnd.generated_RetrieveSDRRepository_again
